@@ -384,8 +384,30 @@ func c11History(r *hx.R, root string, idx int, tier string, st *c11Stats) hx.Cas
 
 	var cache *cdi.Cache
 	created := make(chan bool, 1)
+	var preDirs []string
+	if holdDir < 0 && r.Chance(0.25) {
+		// the cache starts on another list of directories and is pointed at these ones by Configure(WithSpecDirs) alone,
+		// the mode untouched: it must watch them exactly like a new cache; the machine starts from the same state
+		other := filepath.Join(base, "other")
+		_ = os.MkdirAll(other, 0o755)
+		_ = os.WriteFile(filepath.Join(other, "a.json"), c11Pool[3+r.Intn(len(c11Pool)-3)].data, 0o644)
+		switch r.Intn(3) {
+		case 0:
+			preDirs = []string{other}
+		case 1:
+			preDirs = []string{other, dirs[0]}
+		default:
+			preDirs = append([]string{dirs[nd-1]}, other)
+		}
+		st.tails["reconfigured onto these directories before the history"]++
+	}
 	go func() {
-		cache, _ = cdi.NewCache(cdi.WithSpecDirs(dirs...), cdi.WithAutoRefresh(true))
+		if preDirs != nil {
+			cache, _ = cdi.NewCache(cdi.WithSpecDirs(preDirs...), cdi.WithAutoRefresh(true))
+			_ = cache.Configure(cdi.WithSpecDirs(dirs...))
+		} else {
+			cache, _ = cdi.NewCache(cdi.WithSpecDirs(dirs...), cdi.WithAutoRefresh(true))
+		}
 		created <- true
 	}()
 	if holdDir < 0 {
@@ -644,6 +666,78 @@ func c11History(r *hx.R, root string, idx int, tier string, st *c11Stats) hx.Cas
 		unlock()
 		time.Sleep(time.Duration(20+r.Intn(40)) * time.Millisecond) // the watcher catches up; no query
 		do(c11Op{Kind: "rmall", Dir: d})
+	case k < 62 && nd >= 2:
+		// A query arrives while a rescan of the watcher is in progress, and it has work of its own: a directory that was
+		// missing has appeared (which no event announces).  The rescan is held on a Spec name that is a link to a FIFO
+		// outside the Spec directories, after it has passed the still missing directory; the FIFO is then replaced by a
+		// regular Spec file, the missing directory created with content, the query made, the rescan released.
+		tail = "query-during-held-rescan"
+		e := r.Intn(nd - 1)
+		d := e + 1 + r.Intn(nd-1-e)
+		time.Sleep(20 * time.Millisecond)
+		if _, err := os.Stat(dirs[d]); err != nil {
+			do(c11Op{Kind: "mkdir", Dir: d})
+		}
+		_, _ = hx.Guard(func() { _ = cache.ListDevices() }) // every existing directory is watched from here on
+		labels = append(labels, hx.P("LQuery", "true"))
+		human = append(human, "query")
+		if _, err := os.Stat(dirs[e]); err == nil {
+			do(c11Op{Kind: "rmall", Dir: e})
+		}
+		name := hx.Pick(r, []string{"a.json", "b.yaml", "c.json"})
+		if _, err := os.Lstat(filepath.Join(dirs[d], name)); err == nil {
+			do(c11Op{Kind: "remove", Dir: d, N: name})
+		}
+		time.Sleep(40 * time.Millisecond) // the watcher has handled all that
+		c11Uniq++
+		fifo := filepath.Join(out, fmt.Sprintf("target-%d", c11Uniq))
+		c := 3 + r.Intn(len(c11Pool)-3)
+		if unix.Mkfifo(fifo, 0o644) == nil && os.Symlink(fifo, filepath.Join(dirs[d], name)) == nil {
+			o := c11Op{Kind: "symlinkin", Dir: d, N: name, C: c}
+			st.opsOK[o.Kind]++
+			nOK++
+			labels = append(labels, hx.P(hx.C("LOp", o.term(dirs)), hx.B(true)))
+			human = append(human, o.String()+" => true (the target is a FIFO until the rescan is blocked on it, then a regular file)")
+			wfd := -1
+			for i := 0; i < 400 && wfd < 0; i++ {
+				if fd, err := unix.Open(fifo, unix.O_WRONLY|unix.O_NONBLOCK, 0); err == nil {
+					wfd = fd
+				} else {
+					time.Sleep(5 * time.Millisecond)
+				}
+			}
+			_ = os.Rename(fifo, fifo+".old")
+			_ = os.WriteFile(fifo, c11Pool[c].data, 0o644)
+			do(c11Op{Kind: "mkdir", Dir: e})
+			do(c11Op{Kind: "write", Dir: e, N: hx.Pick(r, []string{"a.json", "b.yaml", "c.json"}), C: 3 + r.Intn(len(c11Pool)-3)})
+			answered := make(chan bool, 1)
+			go func() {
+				_, _ = hx.Guard(func() { _ = cache.ListDevices() })
+				answered <- true
+			}()
+			got := false
+			select {
+			case <-answered:
+				got = true
+			case <-time.After(300 * time.Millisecond):
+			}
+			labels = append(labels, hx.P("LQuery", "true"))
+			human = append(human, fmt.Sprintf("query (answered before the held rescan was released: %v)", got))
+			if wfd >= 0 {
+				_ = unix.Close(wfd)
+			}
+			// whoever else got blocked on the old FIFO meanwhile is released as well
+			if fd, err := unix.Open(fifo+".old", unix.O_WRONLY|unix.O_NONBLOCK, 0); err == nil {
+				_ = unix.Close(fd)
+			}
+			if !got {
+				select {
+				case <-answered:
+				case <-time.After(30 * time.Second):
+					panic("c11: a query did not return after the rescan held on a FIFO was released")
+				}
+			}
+		}
 	}
 	st.tails[tail]++
 
